@@ -130,4 +130,6 @@ func ModelFromSnapshot(txn statedb.ReadTxn, tbl statedb.Table[*Obj]) *TableModel
 }
 
 // GenProbes draws probes for a table state.
-func (ti TableInfo) GenProbes(rng *rand.Rand, m *TableModel, n int) []Probe { return ti.Schema.genProbes(rng, m, n) }
+func (ti TableInfo) GenProbes(rng *rand.Rand, m *TableModel, n int) []Probe {
+	return ti.Schema.genProbes(rng, m, n)
+}
